@@ -6,6 +6,8 @@ import fcommon
 from fcommon import BitExact, vec, VEC_FAMS, nudge
 
 EPS_CHOICES = [1e-16, 1e-16, 1e-16, 1e-9, 1e-3, 0.5, 1.0, 2.0 ** -20]
+# linear-fit wrappers: additionally eps = 0.0 (a falsy explicit argument; judged on 'wrapper = metric with the same eps' only)
+EPS_LINEAR = EPS_CHOICES + [0.0, 1e-16, 0.0]
 
 
 class C16(BitExact):
@@ -15,7 +17,7 @@ class C16(BitExact):
             'zeros, constant / near-constant, huge 1e30..1e138, tiny 1e-30..1e-300, mixed magnitudes) x 7 relations of y_hat to y '
             '(independent, equal, one-ulp neighbours, affine image, permuted, scaled, zero) x eps values, judged on all metrics; '
             'point sets (curve families of gen.curve plus non-monotone x with x[0] == x[-1]) x coefficient choices (the end-point fit, '
-            'its neighbours, random, zero line) x eps, judged on every linear_fit wrapper; non-trivial = y != y_hat and length >= 2; '
+            'its neighbours, random, zero line) x eps (incl. the explicit eps = 0.0, judged on wrapper = metric only), judged on every linear_fit wrapper; non-trivial = y != y_hat and length >= 2; '
             'distinct by (kind, inputs, eps)')
     assumptions = ['finite entries with |v| <= 2^465 (so that no sum of squares overflows to inf - inf); 0 < eps <= 1; '
                    'rmsle / rmspe / rpd are judged only on non-negative vectors (the property text), adjusted R2 only for n >= 3',
@@ -105,7 +107,7 @@ class C16(BitExact):
             n = (k % nmax) + 1 if k < 2 * nmax else rng.randint(1, nmax)
             fam, pts = self.gen_points(rng, n)
             ck, cf = self.gen_coef(rng, pts)
-            cases.append({'kind': 'linear', 'family': fam, 'coef_kind': ck, 'points': pts, 'coef': cf, 'eps': EPS_CHOICES[(k + 3) % len(EPS_CHOICES)]})
+            cases.append({'kind': 'linear', 'family': fam, 'coef_kind': ck, 'points': pts, 'coef': cf, 'eps': EPS_LINEAR[(k + 3) % len(EPS_LINEAR)]})
         return cases
 
     # ------------------------------------------------------------------ implementation
